@@ -243,7 +243,10 @@ def doBack (name : String) (i : Nat) : String :=
 def doVal (k : AtomKind) (bonds : List Bond) : String :=
   let a : Atom := ⟨k, bonds⟩
   let a0 := Atom.new k
-  s!"T {listS k.targets} # S {a.subvalence} # H {a.suppressedHydrogens} # AR {k.isAromatic} # AA {a.isAromatic} {a0.isAromatic} {a0.bonds.length} # BA {(bonds.filter Bond.isAromatic).length} # BD {(bonds.filter Bond.isDirectional).length}"
+  let hz := match k with
+    | .bracket b => (match b.hcount with | some h => toString h.isZero | none => "-")
+    | _ => "-"
+  s!"T {listS k.targets} # S {a.subvalence} # H {a.suppressedHydrogens} # AR {k.isAromatic} # AA {a.isAromatic} {a0.isAromatic} {a0.bonds.length} # BA {(bonds.filter Bond.isAromatic).length} # BD {(bonds.filter Bond.isDirectional).length} # IV {kindS k.invert} # HZ {hz}"
 
 def parseBondMulti (t : String) : Option (List Bond) :=
   if t == "-" then some [] else
